@@ -159,26 +159,29 @@ Flat(ss) == IF ss = <<>> THEN <<>> ELSE Head(ss) \o Flat(Tail(ss))
 RpName == "rp"
 MName == "m"
 Dot == PT(".")
+\* a database / user / object name: the witness names are written bare, any other name (source dictionary) quoted
+BareNames == {"d1", "d2", "d3", "u", "sub", "cq", "host", "rp", "m", "t"}
+NId(n) == IF n \in BareNames THEN Id(n) ELSE QId(n)
 
 LeafToks(l) ==
   CASE l.f = "m"        -> <<Id(MName)>>
     [] l.f = "rp.m"     -> <<Id(RpName), Dot, IdT(MName)>>
-    [] l.f = "db.rp.m"  -> <<Id(l.db), Dot, IdT(RpName), Dot, IdT(MName)>>
-    [] l.f = "db..m"    -> <<Id(l.db), Dot, Dot, IdT(MName)>>
+    [] l.f = "db.rp.m"  -> <<NId(l.db), Dot, IdT(RpName), Dot, IdT(MName)>>
+    [] l.f = "db..m"    -> <<NId(l.db), Dot, Dot, IdT(MName)>>
     [] l.f = "re"       -> <<Re("m.*")>>
     [] l.f = "rp.re"    -> <<Id(RpName), Dot, ReT("m.*")>>
-    [] l.f = "db.rp.re" -> <<Id(l.db), Dot, IdT(RpName), Dot, ReT("m.*")>>
-    [] l.f = "db..re"   -> <<Id(l.db), Dot, Dot, ReT("m.*")>>
+    [] l.f = "db.rp.re" -> <<NId(l.db), Dot, IdT(RpName), Dot, ReT("m.*")>>
+    [] l.f = "db..re"   -> <<NId(l.db), Dot, Dot, ReT("m.*")>>
 
 TgtToks(t) ==
   CASE t.f = "none"     -> <<>>
     [] t.f = "m"        -> <<Kw("INTO"), Id("t")>>
     [] t.f = "rp.m"     -> <<Kw("INTO"), Id(RpName), Dot, IdT("t")>>
-    [] t.f = "db.rp.m"  -> <<Kw("INTO"), Id(t.db), Dot, IdT(RpName), Dot, IdT("t")>>
-    [] t.f = "db..m"    -> <<Kw("INTO"), Id(t.db), Dot, Dot, IdT("t")>>
+    [] t.f = "db.rp.m"  -> <<Kw("INTO"), NId(t.db), Dot, IdT(RpName), Dot, IdT("t")>>
+    [] t.f = "db..m"    -> <<Kw("INTO"), NId(t.db), Dot, Dot, IdT("t")>>
     [] t.f = "rp.:M"    -> <<Kw("INTO"), Id(RpName), Dot, PT(":"), KwT("MEASUREMENT")>>
-    [] t.f = "db.rp.:M" -> <<Kw("INTO"), Id(t.db), Dot, IdT(RpName), Dot, PT(":"), KwT("MEASUREMENT")>>
-    [] t.f = "db..:M"   -> <<Kw("INTO"), Id(t.db), Dot, Dot, PT(":"), KwT("MEASUREMENT")>>
+    [] t.f = "db.rp.:M" -> <<Kw("INTO"), NId(t.db), Dot, IdT(RpName), Dot, PT(":"), KwT("MEASUREMENT")>>
+    [] t.f = "db..:M"   -> <<Kw("INTO"), NId(t.db), Dot, Dot, PT(":"), KwT("MEASUREMENT")>>
 
 RECURSIVE SourcesToks(_)
 SelectToks(srcs, tgt) == <<Kw("SELECT"), Id("v")>> \o TgtToks(tgt) \o <<Kw("FROM")>> \o SourcesToks(srcs)
@@ -194,7 +197,7 @@ WrapToks(w) == CASE w = "none" -> <<>>
                  [] w = "verbose" -> Kws(<<"EXPLAIN", "VERBOSE">>)
                  [] w = "analyze_verbose" -> Kws(<<"EXPLAIN", "ANALYZE", "VERBOSE">>)
 
-OnToks(on) == IF on = "" THEN <<>> ELSE <<Kw("ON"), Id(on)>>
+OnToks(on) == IF on = "" THEN <<>> ELSE <<Kw("ON"), NId(on)>>
 FromToks(srcs) == IF srcs = <<>> THEN <<>> ELSE <<Kw("FROM")>> \o SourcesToks(srcs)
 ExactToks(e) == IF e THEN <<Kw("EXACT")>> ELSE <<>>
 =============================================================================
